@@ -114,6 +114,16 @@ CHECKS.update({
    design_ref='DESIGN.md 4 (C33)'),
 })
 
+CHECKS.update({
+ 'C03': dict(
+   category='model_checking', engine='sympeg+refpeg',
+   technique='SMT (z3) query over a bounded symbolic input (compiled parser vs reference semantics incl. objects created per rule) on the rule-kind grammar family; static comparison of live rule kinds; solver-enumerated class witnesses replayed on the real textX for object classes, match values and textx_isinstance',
+   text=("Bounded solver verdict per grammar of the rule-kind family (abstract chains, diamonds, cycles, match/common mixes) and input length n <= 6 / 8 as in C01; the "
+         "rule classification of lang.py is compared statically with the reference; the abstract-result selection of model.py and textx_isinstance (termination, exact relation) "
+         "are decided by witness replay on one representative per accepted character-class string."),
+   design_ref='DESIGN.md 4 (C03)'),
+})
+
 NA = {
  'C16': "history quantifier over whole-program API calls; no data dimension to make symbolic — only enumeration of concrete call sequences would remain (DESIGN.md 5)",
  'C17': "decided by file-system I/O, glob, abspath and repository objects handed between nested real loads; only enumeration of import graphs would remain (DESIGN.md 5)",
